@@ -128,6 +128,7 @@ MUTANTS = [
     ('C12', 'key-parts-concatenated-again (revert of 8a128e0)', [R('lark/lark.py', "s = repr((grammar, options_key, __version__, sys.version_info[:2], str(relative_import_base_path(self.source_path))))", "s = grammar + ''.join(k + v for k, v in options_key) + __version__ + str(sys.version_info[:2]) + str(relative_import_base_path(self.source_path))")]),
     ('C12', 'always-accept-not-in-key (revert of 40e3147)', [R('lark/lark.py', "                if self.options.postlex is not None:\n                    # The postlexer itself", "                if False:\n                    # The postlexer itself")]),
     ('C12', 'edit-terminals-pickled-into-cache (revert of 2cbbc29)', [R('lark/lark.py', "self.save(payload_f, _LOAD_ALLOWED_OPTIONS | {'edit_terminals'})", "self.save(payload_f, _LOAD_ALLOWED_OPTIONS)")]),
+    ('C11', 'standalone-embeds-import-paths (revert of the standalone fix)', [R('lark/tools/standalone.py', "    for name in ('import_paths', 'source_path'):\n        data['options'].pop(name, None)\n", "")]),
     ('C11', 'pattern-flags-left-as-list-on-load (revert of 68ca987)', [R('lark/lexer.py', "        self.flags = frozenset(self.flags)\n\n    def __repr__", "        pass\n\n    def __repr__")]),
     ('C12', 'option-dropped-from-key', [R('lark/lark.py', "unhashable = ('transformer', 'postlex', 'lexer_callbacks', 'edit_terminals', '_plugins')", "unhashable = ('transformer', 'postlex', 'lexer_callbacks', 'edit_terminals', '_plugins', 'maybe_placeholders')")]),
     ('C05', 'ordered-sets-ignored', [R('lark/parsers/earley.py', 'self.Set = OrderedSet if ordered_sets else set', 'self.Set = set')]),
